@@ -76,6 +76,12 @@ RingCenterC(e) == LET N == e.n
   IN << <<"panic", e.p = 0>>, <<"centre_in_cell", okf /\ ToRing(N, cl) = e.r>>, <<"hash_of_centre", e.hc = e.r>>,
         <<"vertices", okf /\ Len(e.vf) = 4 /\ (\A k \in 1..4 : FaceKind(e.vf[k]) = "node")
                       /\ {Canon(N, CellOfFace(e.vf[k])) : k \in 1..4} = VSet(N, cl)>> >>
+(* the constants of the RING scheme at any NSIDE: number of cells / of rings, first cell of the ring N (transition),
+   N + 1 (first ring entirely in the equatorial region), 3N (transition) and 3N + 1 *)
+RingMetaC(e) == LET N == e.n IN
+  << <<"panic", e.p = 0>>, <<"n_hash", e.nh = NHashBig(N)>>, <<"n_rings", e.nr = BigSub(BigMul(<<4>>, BigOf(N)), <<1>>)>>,
+     <<"first_hash_on_npc_eqr_transition", e.ft = RingStart(N, N)>>, <<"first_hash_in_eqr", e.fe = RingStart(N, N + 1)>>,
+     <<"first_hash_on_eqr_spc_transition", e.st = RingStart(N, 3 * N)>>, <<"first_hash_in_spc", e.fs = RingStart(N, 3 * N + 1)>> >>
 RingBadC(e) == << <<"nopanic_center", e.pc = 1>>, <<"nopanic_vertices", e.pv = 1>>, <<"nopanic_sph_coo", e.ps = 1>>,
                   <<"nopanic_hash", e.ph = 1>>, <<"nopanic_hash_dxdy", e.phd = 1>> >>
 
@@ -158,6 +164,7 @@ Clauses(e) == CASE e.ev = "hash" -> HashC(e)
                 [] e.ev = "ring_hash" -> RingHashC(e)
                 [] e.ev = "ring_center" -> RingCenterC(e)
                 [] e.ev = "ring_bad" -> RingBadC(e)
+                [] e.ev = "ring_meta" -> RingMetaC(e)
                 [] e.ev = "cellgeo" -> CellGeoC(e)
                 [] e.ev = "cell_bad" -> CellBadC(e)
                 [] e.ev = "hash_dxdy" -> HashDxDyC(e)
